@@ -214,6 +214,9 @@ func (s *c03State) ops() []c03Op {
 		}
 		if !s.removed {
 			ops = append(ops, c03Op{kind: "remove", arg: "a"})
+			if s.cfg.overlap {
+				ops = append(ops, c03Op{kind: "remove", arg: "ab"}) // matches several bins: all of them go
+			}
 		}
 	}
 	return ops
@@ -326,8 +329,16 @@ func (s *c03State) apply(o c03Op, t *mc.Tr) {
 			}
 		} else {
 			rem, ok := s.pr.RemovePartitionsMatching(ctxFor(o.arg))
-			if !ok || len(rem) == 0 {
-				t.Fail(kn+"/remove-result", "RemovePartitionsMatching(%s) removed nothing", o.arg)
+			want := 0
+			for _, b := range s.ref.bins {
+				for _, m := range b.matches {
+					if m == o.arg && !b.removed {
+						want++
+					}
+				}
+			}
+			if !ok || len(rem) != want {
+				t.Fail(kn+"/remove-result", "RemovePartitionsMatching(%s) removed %d partitions (ok=%v), %d match", o.arg, len(rem), ok, want)
 			}
 			// every bin matching the key goes
 			for _, b := range s.ref.bins {
@@ -492,7 +503,9 @@ func runC03(c *Ctx) {
 	c03Matchers(c)
 	// Mode T: concurrent mixes on one strategy
 	for _, lookup := range []bool{true, false} {
-		for _, progs := range [][]string{{"a", "b", "R"}, {"aR", "bR"}, {"a", "z", "2"}, {"aR", "1", "b"}, {"a", "a"}, {"a", "a", "b"}, {"z", "z"}, {"b", "b", "a"}, {"a", "aR"}} {
+		for _, progs := range [][]string{{"a", "b", "R"}, {"aR", "bR"}, {"a", "z", "2"}, {"aR", "1", "b"}, {"a", "a"}, {"a", "a", "b"}, {"z", "z"}, {"b", "b", "a"}, {"a", "aR"},
+			// partitions added and removed while requests are admitted and released
+			{"R", "+", "c"}, {"c", "+c"}, {"a", "-", "a"}, {"R", "-", "b"}, {"a", "-", "2"}, {"-", "+", "a"}} {
 			c.Explore(c03Concurrent(lookup, 2, progs), mc.Options{PreemptBound: c.Pick(3, 4), NoCache: true})
 		}
 	}
@@ -500,7 +513,8 @@ func runC03(c *Ctx) {
 
 // c03Concurrent: threads run small programs on one strategy with one token pre-held in bin a:
 // letters acquire for that key ('z' = unknown key), 'R' releases the thread's oldest token (thread 0
-// starts with the pre-held one), digits SetLimit. Every execution's end state is compared with the
+// starts with the pre-held one), digits SetLimit, '+' adds partition c (fraction 0.3), '-' removes
+// partition a. Every execution's end state is compared with the
 // reference applied in SOME order consistent with the results (brute force over permutations).
 func c03Concurrent(lookup bool, limit int, progs []string) *mc.Scenario {
 	cfg := c03Cfg{lookup: lookup, fracs: []float64{0.5, 0.5}, limit: limit}
@@ -520,13 +534,17 @@ func c03Concurrent(lookup bool, limit int, progs []string) *mc.Scenario {
 				ok   bool
 				call int
 				ret  int
+				acq  int // release: call tick of the acquire that produced the token (0 = the pre-held one)
+				n    int // removal: busy count returned (lookup) / partitions removed (predicate)
+			}
+			type tokRec struct {
+				tok core.StrategyToken
+				id  int
 			}
 			var recs []opRec
 			tick := 0
-			toks := make([][]core.StrategyToken, len(progs))
-			toks[0] = append(toks[0], pre)
-			tokKey := make([][]byte, len(progs))
-			tokKey[0] = append(tokKey[0], 'a')
+			toks := make([][]tokRec, len(progs))
+			toks[0] = append(toks[0], tokRec{pre, 0})
 			var ths []*vrt.Thread
 			for t := range progs {
 				t := t
@@ -541,19 +559,32 @@ func c03Concurrent(lookup bool, limit int, progs []string) *mc.Scenario {
 							if len(toks[t]) == 0 {
 								continue
 							}
-							r.op = 'A' + tokKey[t][0] - 'a' // release of key k is recorded as upper-case k
-							toks[t][0].Release()
-							toks[t], tokKey[t] = toks[t][1:], tokKey[t][1:]
+							r.acq = toks[t][0].id
+							toks[t][0].tok.Release()
+							toks[t] = toks[t][1:]
 							r.ok = true
 						case op >= '0' && op <= '9':
 							s.strat().SetLimit(int(op - '0'))
 							r.ok = true
+						case op == '+':
+							if s.lk != nil {
+								r.ok = s.lk.AddPartition("c", strategy.NewLookupPartitionWithMetricRegistry("c", 0.3, 7, core.EmptyMetricRegistryInstance))
+							} else {
+								r.ok = s.pr.AddPartition(strategy.NewPredicatePartitionWithMetricRegistry("c", 0.3, matchAny([]string{"c"}), core.EmptyMetricRegistryInstance))
+							}
+						case op == '-':
+							if s.lk != nil {
+								r.n, r.ok = s.lk.RemovePartition("a")
+							} else {
+								var rem []*strategy.PredicatePartition
+								rem, r.ok = s.pr.RemovePartitionsMatching(ctxFor("a"))
+								r.n = len(rem)
+							}
 						default:
 							tok, ok := s.strat().TryAcquire(ctxFor(string(op)))
 							r.ok = ok
 							if ok {
-								toks[t] = append(toks[t], tok)
-								tokKey[t] = append(tokKey[t], op)
+								toks[t] = append(toks[t], tokRec{tok, call})
 							}
 						}
 						tick++
@@ -567,6 +598,7 @@ func c03Concurrent(lookup bool, limit int, progs []string) *mc.Scenario {
 			n := len(recs)
 			used := make([]bool, n)
 			var order []int
+			binOf := map[int]int{0: 0} // acquire tick -> index of the bin it was charged to in that linearization (-1 = unknown bin)
 			var try func(r *refParts) bool
 			mkref := func() *refParts {
 				r := &refParts{lookup: lookup, limit: limit, unk: &refBin{name: "<unknown>"}}
@@ -614,9 +646,16 @@ func c03Concurrent(lookup bool, limit int, progs []string) *mc.Scenario {
 					op := recs[i].op
 					good := true
 					switch {
-					case op >= 'A' && op <= 'Z':
-						k := string(op - 'A' + 'a')
-						b := c.binFor(k)
+					case op == 'R':
+						bi, known := binOf[recs[i].acq]
+						if !known {
+							good = false // released before its acquire in this order
+							break
+						}
+						b := c.unk
+						if bi >= 0 {
+							b = c.bins[bi]
+						}
 						if b == nil || b.busy == 0 {
 							good = false
 						} else {
@@ -624,9 +663,51 @@ func c03Concurrent(lookup bool, limit int, progs []string) *mc.Scenario {
 						}
 					case op >= '0' && op <= '9':
 						c.setLimit(int(op - '0'))
+					case op == '+':
+						exists := false
+						for _, b := range c.bins {
+							if b.name == "c" && !b.removed {
+								exists = true
+							}
+						}
+						if lookup {
+							good = recs[i].ok == !exists
+						} else {
+							good = recs[i].ok
+						}
+						if good && recs[i].ok {
+							c.bins = append(c.bins, &refBin{name: "c", frac: 0.3, matches: []string{"c"}})
+						}
+					case op == '-':
+						var rb *refBin
+						for _, b := range c.bins {
+							if b.name == "a" && !b.removed {
+								rb = b
+							}
+						}
+						switch {
+						case rb == nil:
+							good = !recs[i].ok
+						case lookup:
+							good = recs[i].ok && recs[i].n == rb.busy
+						default:
+							good = recs[i].ok && recs[i].n == 1
+						}
+						if good && rb != nil {
+							rb.removed = true
+						}
 					default:
-						_, ok := c.acquire(string(op))
+						b, ok := c.acquire(string(op))
 						good = ok == recs[i].ok
+						if good && ok {
+							bi := -1
+							for k, bb := range c.bins {
+								if bb == b {
+									bi = k
+								}
+							}
+							binOf[recs[i].call] = bi
+						}
 					}
 					if !good {
 						continue
@@ -638,6 +719,9 @@ func c03Concurrent(lookup bool, limit int, progs []string) *mc.Scenario {
 					}
 					used[i] = false
 					order = order[:len(order)-1]
+					if op != 'R' && op != '+' && op != '-' && !(op >= '0' && op <= '9') {
+						delete(binOf, recs[i].call)
+					}
 				}
 				return false
 			}
@@ -662,13 +746,18 @@ func c03Concurrent(lookup bool, limit int, progs []string) *mc.Scenario {
 			if busy != final.total {
 				x.Fail("total-busy", "BusyCount()=%d, reference %d (%s)", busy, final.total, res)
 			}
-			for i, b := range final.bins {
+			live := 0
+			for _, b := range final.bins {
+				if b.removed {
+					continue
+				}
 				var bb int
 				if s.lk != nil {
 					bb, _ = s.lk.BinBusyCount(b.name)
 				} else {
-					bb, _ = s.pr.BinBusyCount(i)
+					bb, _ = s.pr.BinBusyCount(live)
 				}
+				live++
 				if bb != b.busy {
 					x.Fail("bin-busy", "bin %s busy=%d, reference %d (%s)", b.name, bb, b.busy, res)
 				}
